@@ -66,6 +66,19 @@ Theorem C03_relaxed_card_sound : forall fa cfg thr P C shapes,
 Proof. exact relaxed_card_sound. Qed.
 Print Assumptions C03_relaxed_card_sound.
 
+(** the two candidates of T2 have EQUAL counts (binary64 frequencies, class
+    sizes below 2^53): with [pd_wf] the [{1}] count is the number of instances
+    with exactly one value and the ['+'] count the number with at least one,
+    so no instance has more than one matching value (that step is inside T3) *)
+Theorem C03_useless_pair_equal_counts : forall cfg (thr : F BAlg) counts ce a b,
+  In a (class_base BAlg cfg thr counts ce) -> In b (class_base BAlg cfg thr counts ce) ->
+  okN53 (class_cnt counts ce) -> (s_nocc a <= class_cnt counts ce)%N -> (s_nocc b <= class_cnt counts ce)%N ->
+  (feqb BAlg (pv BAlg (class_cnt counts ce) a) (pv BAlg (class_cnt counts ce) b) = true \/
+   feqb BAlg (pv BAlg (class_cnt counts ce) b) (pv BAlg (class_cnt counts ce) a) = true) ->
+  s_nocc a = s_nocc b.
+Proof. exact (useless_pair_equal_counts BAlg _ _ BAlg_laws). Qed.
+Print Assumptions C03_useless_pair_equal_counts.
+
 (** ** T3 -- part (a) of [sat]: every cardinality holds for every instance.
 
     [insts_of c] are the instances of class [c]; [cntf c i inv p k] is the
